@@ -85,7 +85,16 @@ fn walk(node: &dyn Introspect, depth: usize, path: &str, nodes: &mut usize, mult
 fn check_result(res: &IntrospectionResult, step: usize) -> Result<(), IFail> {
     let n = res.total_len();
     for i in 0..n + 3 {
-        let some = res.total_index(i).is_some();
+        let some = match guard(|| Ok(res.total_index(i).is_some())) {
+            Out::Ok(x) => x,
+            o => {
+                return Err(IFail {
+                    check: "total_index_panic".into(),
+                    detail: format!("step {}: total_len() = {}, total_index({}) panicked: {}", step, n, i, o.describe()),
+                    extra: json!({"total_len": n, "index": i}),
+                })
+            }
+        };
         if some != (i < n) {
             return Err(IFail {
                 check: "total_index_disagrees_with_total_len".into(),
